@@ -6,7 +6,10 @@
 cd /verif
 for d in seeded/${1}*/; do
   id=$(basename $d); prop=$(echo $id | cut -c1-3)
-  out=$(./tools/seedtest.sh /verif/$d/patch.diff $prop 2>&1)
+  pf=/verif/$d/patch.diff
+  # (a patch that a later fix: commit made unappliable has a hand-ported twin next to it)
+  for alt in /verif/$d/patch_ported_to_*.diff; do [ -f "$alt" ] && pf="$alt"; done
+  out=$(./tools/seedtest.sh $pf $prop 2>&1)
   if echo "$out" | grep -q "patch does not apply"; then echo "NOAPPLY $id"; continue; fi
   rc=$(echo "$out" | grep "^== $prop" | sed 's/.*exit=\([0-9]*\).*/\1/')
   if [ "$rc" = "1" ]; then echo "CAUGHT  $id ($(echo "$out" | grep "^== $prop" | sed 's/.*: \([0-9]* violation lines\).*/\1/'))"; else echo "MISSED  $id exit=$rc"; fi
